@@ -59,6 +59,11 @@ pub static LAST_PANIC: std::sync::Mutex<String> = std::sync::Mutex::new(String::
 /// remembers the last message and location so that a panic of the harness itself can be reported.
 pub fn install_quiet_panic_hook() {
     std::panic::set_hook(Box::new(|info| {
+        if format!("{}", info).contains("unsafe precondition") {
+            // e.g. std's "unsafe precondition(s) violated" checks in builds with debug assertions:
+            // the process is about to abort, so say why
+            eprintln!("NON-UNWINDING PANIC (process aborts): {}", info);
+        }
         let own = info.location().map(|l| !l.file().starts_with("/repo") && !l.file().contains("x.rs")).unwrap_or(true);
         if own {
             if let Ok(mut g) = LAST_PANIC.try_lock() {
